@@ -5,6 +5,8 @@ use crate::WorkerCtx;
 
 pub mod common;
 pub mod smoke;
+pub mod c01;
+pub mod c02;
 pub mod c03;
 
 pub struct Plan {
@@ -23,6 +25,8 @@ impl Plan {
 pub fn plan(id: &str, tier: &str) -> Option<Plan> {
     let _t = tier == "thorough";
     match id {
+        "C01" => Some(Plan::new(if _t { 64 } else { 12 }, 1200)),
+        "C02" => Some(Plan::new(if _t { 48 } else { 12 }, 1200)),
         "C03" => Some(Plan::new(if _t { 48 } else { 12 }, 900)),
         _ => None,
     }
@@ -30,6 +34,8 @@ pub fn plan(id: &str, tier: &str) -> Option<Plan> {
 
 pub fn spec(id: &str) -> Option<Spec> {
     match id {
+        "C01" => Some(c01::spec()),
+        "C02" => Some(c02::spec()),
         "C03" => Some(c03::spec()),
         _ => None,
     }
@@ -37,6 +43,8 @@ pub fn spec(id: &str) -> Option<Spec> {
 
 pub fn worker(ctx: &WorkerCtx) -> WorkerReport {
     match ctx.prop.as_str() {
+        "C01" => c01::worker(ctx),
+        "C02" => c02::worker(ctx),
         "C03" => c03::worker(ctx),
         other => {
             let mut r = WorkerReport::default();
